@@ -372,6 +372,8 @@ impl TypeScript {
         indent: usize,
         comments: &[String],
     ) -> io::Result<()> {
+        // Doc text must not be able to close the block comment it is written into.
+        let comments: Vec<String> = comments.iter().map(|c| c.replace("*/", "*\\/")).collect();
         // Only attempt to write a comment if there are some, otherwise we're Ok()
         if !comments.is_empty() {
             let comment: String = {
